@@ -6,11 +6,12 @@
 (*   op  : [t, i, op, ctx, n, b, v, k, child, r: [tag, id, exc],                               *)
 (*          obs: << per alive context: [c, get: <<[n, id]>>, iter: <<[n, id, val]>>, top,      *)
 (*                  stack: <<ids>>, sval: <<vals>>,                                            *)
-(*                  prox: <<[k, truthy, unb, id, val, cur]>>] >>]                              *)
+(*                  prox: <<[k, truthy, unb, repobj, id, val, cur]>>] >>]                      *)
 (* `obs` is what every live context reads *after* the step (getattr per name, iteration, top, *)
 (* the whole stack, and for every existing proxy: bool(), repr() is the unbound fallback,      *)
-(* attribute read through the proxy (0 = RuntimeError, -1 = any other exception), the value    *)
-(* of the object's field read through the proxy, _get_current_object()).                       *)
+(* repr() is the resolved object's repr, an operation forwarded through the proxy (attribute    *)
+(* read / ==; 0 = RuntimeError, -1 = any other failure), the object's state read through the    *)
+(* proxy (field / len), _get_current_object() identified by `is`).                              *)
 (* The judge advances the contract state (Locals.tla) with the recorded operation and compares *)
 (* the recorded result and every context's recorded reads with it.  One TLC state per line;    *)
 (* verdicts are total: the first failing clause of a trace is printed, the rest of that trace  *)
@@ -43,8 +44,11 @@ ProxyOK(S, e) ==
   /\ Len(e.prox) = Cardinality(S.made)
   /\ \A p \in SeqSet(e.prox) :
        LET b == Bound(S, e.c, p.k) IN
-       /\ p.truthy = (b # NoBox)            \* falsy exactly where nothing is bound
+       \* bool(proxy) = bool(bound object): falsy where nothing is bound, and also for a bound
+       \* object that is itself falsy (0, "", empty or emptied container, __bool__ -> False)
+       /\ p.truthy = (b # NoBox /\ TruthyC(S.cont, b))
        /\ p.unb = (b = NoBox)               \* fallback repr exactly where nothing is bound
+       /\ p.repobj = (b # NoBox)            \* otherwise repr(proxy) is the bound object's repr
        /\ p.id = b                          \* attribute read: the bound object's / RuntimeError (0)
        /\ p.cur = b                         \* _get_current_object(): the bound object / RuntimeError (0)
        /\ p.val = (IF b = NoBox THEN 0 ELSE S.cont[b])
@@ -58,7 +62,13 @@ CtxClause(S, o, e) ==
   ELSE IF ~ProxyOK(S, e) THEN
        (IF \E p \in SeqSet(e.prox) : p.k \in PKinds /\ Bound(S, e.c, p.k) = NoBox
                                       /\ (p.truthy \/ ~p.unb \/ p.id # 0 \/ p.cur # 0)
-        THEN "ProxyReportsUnbound" ELSE "ProxyResolvesInAccessingContext")
+        THEN "ProxyReportsUnbound"
+        \* a bound but falsy object must still be reported as bound (no RuntimeError, its own repr)
+        ELSE IF \E p \in SeqSet(e.prox) : p.k \in PKinds /\ Bound(S, e.c, p.k) # NoBox
+                      /\ ~TruthyC(S.cont, Bound(S, e.c, p.k))
+                      /\ (p.cur = 0 \/ p.id = 0 \/ p.unb \/ ~p.repobj)
+        THEN "FalsyBoundObjectIsBound"
+        ELSE "ProxyResolvesInAccessingContext")
   ELSE "ok"
 
 RECURSIVE FirstBad(_, _, _, _)
